@@ -823,8 +823,11 @@ package raft
 // C18: whatever kind of snapshot the leader holds (a full one, or the dummy of an on-disk state
 // machine), the InstallSnapshot sent to a WITNESS is a witness snapshot: marked Witness, not Dummy, and
 // carrying no file -- a witness never receives (or is streamed) user state
-//@ func (l *entryLog) snapshot [C18]
-//@ trusted returns the most recent snapshot record (in-memory one if present, else the log store's)
+// verified (was trusted): a snapshot that has been received but not yet saved (the in-memory one) takes precedence over
+// the log store's record
+//@ func (l *entryLog) snapshot [C18 C08]
+//@ nobounds
+//@ ensures l.inmem.snapshot != nil ==> result.Index == l.inmem.snapshot.Index && result.Term == l.inmem.snapshot.Term && result.Witness == l.inmem.snapshot.Witness && result.Dummy == l.inmem.snapshot.Dummy
 //@ func (r *raft) makeInstallSnapshotMessage [C18]
 //@ noframe
 //@ nobounds
